@@ -1068,6 +1068,20 @@ void htp_utf8_decode_path_inplace(htp_cfg_t *cfg, htp_tx_t *tx, bstr *path) {
         }
     }
 
+    // A multi-byte character that is cut short by the end of the path is invalid too.
+    if (state != HTP_UTF8_ACCEPT) {
+        tx->flags |= HTP_PATH_UTF8_INVALID;
+
+        if (cfg->decoder_cfgs[HTP_DECODER_URL_PATH].utf8_invalid_unwanted != HTP_UNWANTED_IGNORE) {
+            tx->response_status_expected_number = cfg->decoder_cfgs[HTP_DECODER_URL_PATH].utf8_invalid_unwanted;
+        }
+
+        // The bytes consumed so far produced no output, so there is room for the replacement.
+        if (wpos < len) {
+            data[wpos++] = cfg->decoder_cfgs[HTP_DECODER_URL_PATH].bestfit_replacement_byte;
+        }
+    }
+
     // Did the input stream seem like a valid UTF-8 string?
     if ((seen_valid) && (!(tx->flags & HTP_PATH_UTF8_INVALID))) {
         tx->flags |= HTP_PATH_UTF8_VALID;
@@ -1155,6 +1169,11 @@ void htp_utf8_validate_path(htp_tx_t *tx, bstr *path) {
                 rpos++;
                 break;
         }
+    }
+
+    // A multi-byte character that is cut short by the end of the path is invalid too.
+    if (state != HTP_UTF8_ACCEPT) {
+        tx->flags |= HTP_PATH_UTF8_INVALID;
     }
 
     // Did the input stream seem like a valid UTF-8 string?
